@@ -21,6 +21,7 @@ import (
 	"time"
 
 	"golang.org/x/net/http2"
+	"golang.org/x/net/http2/hpack"
 	"google.golang.org/grpc/codes"
 	"google.golang.org/grpc/internal/transport"
 	"google.golang.org/grpc/internal/verifhook"
@@ -60,7 +61,12 @@ const (
 	howTrailersRST  = 3 // server trailers then RST_STREAM(NO_ERROR) (what a grpc-go server does)
 	howTrailers     = 4 // server trailers only; the client has not half-closed (client must RST)
 	howBlockedEnd   = 5 // client writes a last message that is stuck behind flow control (plan IWS 0), then server trailers only
-	numHow          = 6
+	// The server ends a stream the client has not half-closed with a HEADERS+END_STREAM frame the client must
+	// REJECT (malformed): the stream is over for the application, and the client still has to reset it on the wire.
+	howBadStatusTrailers  = 6 // response headers, then trailers with a non-numeric grpc-status
+	howBadBinTrailersOnly = 7 // trailers-only response carrying a -bin header that is not base64
+	howBadHTTPStatus      = 8 // trailers-only response with a non-numeric :status
+	numHow                = 9
 )
 
 type Op struct {
@@ -192,7 +198,9 @@ type exec struct {
 	peer *h2peer.Peer
 	led  *h2peer.Ledger
 
-	calls []*call
+	calls           []*call
+	blockedEnd      map[uint32]bool // wire ids of streams finished with howBlockedEnd (client END_STREAM queued behind flow control)
+	serverEndedOpen map[uint32]bool // wire ids of streams the server ended (END_STREAM, no RST) on a live transport while the client had not half-closed
 
 	hmu        sync.Mutex
 	parkBudget int
@@ -470,6 +478,13 @@ func (e *exec) finish(c *call, how int) {
 		s.Close(status.Error(codes.Canceled, "cancelled"))
 		return
 	}
+	if !e.closed && (how == howTrailers || how == howBadStatusTrailers || how == howBadBinTrailersOnly || how == howBadHTTPStatus) {
+		// the server ends a stream the client has not half-closed, on a live transport: the client must reset it
+		if e.serverEndedOpen == nil {
+			e.serverEndedOpen = map[uint32]bool{}
+		}
+		e.serverEndedOpen[id] = true
+	}
 	switch how {
 	case howCancel:
 		s.Close(status.Error(codes.Canceled, "cancelled"))
@@ -490,7 +505,21 @@ func (e *exec) finish(c *call, how int) {
 		e.peer.WriteRSTStream(id, http2.ErrCodeNo)
 	case howTrailers:
 		e.peer.WriteHeaders(h2peer.Headers{StreamID: id, Fields: h2peer.TrailersOnly(0, ""), EndStream: true})
+	case howBadStatusTrailers:
+		e.class("server_ends_stream_with_malformed_headers")
+		e.peer.WriteHeaders(h2peer.Headers{StreamID: id, Fields: h2peer.ResponseHeaders()})
+		e.peer.WriteHeaders(h2peer.Headers{StreamID: id, Fields: []hpack.HeaderField{{Name: "grpc-status", Value: "xx"}}, EndStream: true})
+	case howBadBinTrailersOnly:
+		e.class("server_ends_stream_with_malformed_headers")
+		e.peer.WriteHeaders(h2peer.Headers{StreamID: id, Fields: h2peer.TrailersOnly(0, "", hpack.HeaderField{Name: "x-verif-bin", Value: "%%%not-base64%%%"}), EndStream: true})
+	case howBadHTTPStatus:
+		e.class("server_ends_stream_with_malformed_headers")
+		e.peer.WriteHeaders(h2peer.Headers{StreamID: id, Fields: []hpack.HeaderField{{Name: ":status", Value: "2x0"}, {Name: "content-type", Value: "application/grpc"}, {Name: "grpc-status", Value: "0"}}, EndStream: true})
 	case howBlockedEnd:
+		if e.blockedEnd == nil {
+			e.blockedEnd = map[uint32]bool{}
+		}
+		e.blockedEnd[id] = true
 		hdr := []byte{0, 0, 0, 0, 3}
 		s.Write(hdr, mem.BufferSlice{mem.SliceBuffer([]byte("abc"))}, &transport.WriteOptions{Last: true})
 		synctest.Wait()
@@ -555,6 +584,7 @@ type outcome struct {
 	led         []string
 	half        []string // known shape sigHalfClosed
 	neverClosed int      // streams ended by the server that the client never ended nor reset
+	neverOther  int      // ... of which the client had NOT queued its own END_STREAM (not the known shape)
 	classes     map[string]bool
 	setupErr    error
 	nCalls      int
@@ -663,6 +693,9 @@ func runPlan(t *testing.T, p Plan) (out outcome) {
 		// and including the transport's shutdown.
 		for _, st := range e.led.Streams() {
 			if st.OutEnd && !st.InEnd && !st.InRST && !st.OutRST {
+				if e.serverEndedOpen[st.ID] {
+					out.neverOther++
+				}
 				out.neverClosed++
 			}
 		}
@@ -715,7 +748,7 @@ func runUnit(t *testing.T, p Plan, tokenRace bool) vk.Result {
 	var cl []string
 	for _, c := range []string{"limit_lowered_below_open", "limit_lowered_below_open_with_waiter", "limit_zero", "raise_with_waiters", "finish_with_waiter", "goaway_with_waiter", "close_with_waiter",
 		"waiter_blocked_at_limit", "parked_in_check_then_wait_window", "opened_stream_reaching_limit", "open_above_limit_after_ack", "admitted", "failed_deadline", "failed_drain", "failed_closed",
-		"peer_ends_stream_while_client_end_stream_is_flow_blocked",
+		"peer_ends_stream_while_client_end_stream_is_flow_blocked", "server_ends_stream_with_malformed_headers",
 		clsTokenDoneCtx, clsCtxEndInReleaseStep, "waiter_ctx_cancelled", "slept_to_exact_waiter_deadline", "failed_cancelled"} {
 		if out.classes[c] {
 			cl = append(cl, c)
@@ -738,7 +771,9 @@ func runUnit(t *testing.T, p Plan, tokenRace bool) vk.Result {
 		// client had neither ended nor reset when it opened the next stream; the
 		// signature additionally requires that such streams were never closed by
 		// the client later on either.
-		if out.neverClosed > 0 {
+		// ... and that the client had queued its own END_STREAM on every one of them (the listed finding is about
+		// exactly that shape; a stream the client never half-closed and never reset is a different violation).
+		if out.neverClosed > 0 && out.neverOther == 0 {
 			r.Sig = sigHalfClosed
 		}
 		return r
